@@ -9,6 +9,7 @@
 //   chans: channel send/recv/close/select become vsched operations
 //   sleep: time.Sleep / runtime.Gosched become vsched.Yield()
 //   go:    `go x.name(...)` / `go name(...)` for the listed callee names become vsched.Go(func(){...})
+//   subst: [[old,new],...] literal text substitutions applied first (each must match)
 package main
 
 import (
@@ -30,6 +31,10 @@ type fileCfg struct {
 	Sleep bool     `json:"sleep"`
 	Go    []string `json:"go"`
 	Only  bool     `json:"only"` // file listed without its package being in pkgs: still rewrite imports
+	// Subst: literal text substitutions [old, new] applied to the source before parsing (e.g. to
+	// route a random source or a log.Fatalf through a harness-owned hook defined in an accessor
+	// file). Every pair must match at least once, otherwise vinstr fails (harness error).
+	Subst [][2]string `json:"subst"`
 }
 
 type config struct {
@@ -83,7 +88,18 @@ func main() {
 	for _, rel := range rels {
 		src, err := os.ReadFile(filepath.Join(*repo, rel))
 		must(err)
+		substituted := false
+		for _, sb := range targets[rel].Subst {
+			if !bytes.Contains(src, []byte(sb[0])) {
+				must(fmt.Errorf("%s: substitution text %q not found (source changed; adjust the instr entry)", rel, sb[0]))
+			}
+			src = bytes.ReplaceAll(src, []byte(sb[0]), []byte(sb[1]))
+			substituted = true
+		}
 		res, changed := rewrite(rel, src, targets[rel])
+		if !changed && substituted {
+			res, changed = src, true
+		}
 		if !changed {
 			continue
 		}
